@@ -74,39 +74,40 @@ structure WrapCount where
   tl2NotLast : Bool := false
   deriving DecidableEq, Repr, Inhabited
 
-/-- the `loop:` of `ParseInvokeReq`; every iteration but the last consumes at least 4 bytes, so
-`fuel = len/4 + 1` iterations always suffice (`fuel = 0` is unreachable from `parseInvokeReq`). -/
-def parseWrappers : Nat → Hctx → WrapCount → Except RErr (Hctx × WrapCount)
-  | 0, _, _ => .error .other
+/-- the `loop:` of `ParseInvokeReq`. The Go `for` is unbounded; here it is driven by `fuel`, `none` = fuel exhausted.
+Every iteration but the last consumes at least 4 bytes, so `len/4 + 1` iterations always suffice:
+`parseWrappers_fuel` (FormatLemmas) proves `none` is unreachable from `parseInvokeReqFrom`. -/
+def parseWrappers : Nat → Hctx → WrapCount → Option (Except RErr (Hctx × WrapCount))
+  | 0, _, _ => none
   | fuel + 1, h, c =>
     match u32R h.request with
-    | .error e => .error e
+    | .error e => some (.error e)
     | .ok (tag, afterTag) =>
       if tag == tDestActor then
         match u64R afterTag with
-        | .error e => .error e
+        | .error e => some (.error e)
         | .ok (a, r) =>
           parseWrappers fuel { h with actorId := a, request := r }
             { c with actorSet := c.actorSet + 1, tl2NotLast := c.tl2NotLast || c.tl2Set != 0 }
       else if tag == tDestFlags then
         match ReqExtra.read afterTag with
-        | .error e => .error e
+        | .error e => some (.error e)
         | .ok (e, r) =>
           parseWrappers fuel { h with extra := e, request := r }
             { c with extraSet := c.extraSet + 1, tl2NotLast := c.tl2NotLast || c.tl2Set != 0 }
       else if tag == tDestActorFlags then
         match u64R afterTag with
-        | .error e => .error e
+        | .error e => some (.error e)
         | .ok (a, r) =>
           match ReqExtra.read r with
-          | .error e => .error e
+          | .error e => some (.error e)
           | .ok (e, r) =>
             parseWrappers fuel { h with actorId := a, extra := e, request := r }
               { c with actorSet := c.actorSet + 1, extraSet := c.extraSet + 1,
                        tl2NotLast := c.tl2NotLast || c.tl2Set != 0 }
       else if tag == tTL2Marker then
         parseWrappers fuel { h with tl2 := true, request := afterTag } { c with tl2Set := c.tl2Set + 1 }
-      else .ok ({ h with reqTag := tag }, c)
+      else some (.ok ({ h with reqTag := tag }, c))
 
 /-- `fillInvokeReqInternals`: `CustomTimeoutMs > 0` as `int32` -/
 def fillInternals (h : Hctx) : Hctx :=
@@ -122,8 +123,9 @@ def parseInvokeReqFrom (h0 : Hctx) (wire : Bytes) : Except RErr Hctx :=
   | .error e => .error e
   | .ok (q, r) =>
     match parseWrappers (r.length / 4 + 1) { h0 with queryId := q, request := r } {} with
-    | .error e => .error e
-    | .ok (h, c) =>
+    | none => .error .other   -- unreachable (`parseWrappers_fuel`)
+    | some (.error e) => .error e
+    | some (.ok (h, c)) =>
       if c.actorSet > 1 || c.extraSet > 1 then .error .other
       else if c.tl2Set > 1 then .error .other
       else if c.tl2NotLast then .error .other
@@ -212,17 +214,18 @@ inductive Outcome where
   | rpcError (code : UInt32) (desc : Bytes)   -- `&rpc.Error{Code, Description}`
   deriving DecidableEq, Repr, Inhabited
 
-/-- the `for` loop of `parseResponseExtra`: returns `respBody`, `extra`, `tag`, `afterTag`, `extraSet` -/
-def parseResultExtras : Nat → ResExtra → Bytes → Nat → Except RErr (Bytes × ResExtra × UInt32 × Bytes × Nat)
-  | 0, _, _, _ => .error .other
+/-- the `for` loop of `parseResponseExtra`: returns `respBody`, `extra`, `tag`, `afterTag`, `extraSet`;
+`none` = fuel exhausted, unreachable from `parseResponseExtra` (`parseResultExtras_fuel`). -/
+def parseResultExtras : Nat → ResExtra → Bytes → Nat → Option (Except RErr (Bytes × ResExtra × UInt32 × Bytes × Nat))
+  | 0, _, _, _ => none
   | fuel + 1, ex, body, n =>
     match u32R body with
-    | .error e => .error e
+    | .error e => some (.error e)
     | .ok (tag, afterTag) =>
-      if tag != tReqResultHeader then .ok (body, ex, tag, afterTag, n)
+      if tag != tReqResultHeader then some (.ok (body, ex, tag, afterTag, n))
       else
         match ResExtra.read afterTag with
-        | .error e => .error e
+        | .error e => some (.error e)
         | .ok (ex', body') => parseResultExtras fuel ex' body' (n + 1)
 
 def readCodeDesc (r : Bytes) : Except RErr (UInt32 × Bytes × Bytes) :=
@@ -237,8 +240,9 @@ def readCodeDesc (r : Bytes) : Except RErr (UInt32 × Bytes × Bytes) :=
 `.error` stands for any other returned error (the call fails; `*extra` is then not meaningful). -/
 def parseResponseExtra (tl2 : Bool) (ex0 : ResExtra) (body : Bytes) : Except RErr (Bytes × ResExtra × Outcome) :=
   match parseResultExtras (body.length / 4 + 1) ex0 body 0 with
-  | .error e => .error e
-  | .ok (body, ex, tag, afterTag, n) =>
+  | none => .error .other   -- unreachable (`parseResultExtras_fuel`)
+  | some (.error e) => .error e
+  | some (.ok (body, ex, tag, afterTag, n)) =>
     if n > 1 then .error .other
     else if tag == tReqError then
       match readCodeDesc afterTag with
@@ -268,6 +272,23 @@ def parseResponse (tl2 : Bool) (wire : Bytes) : Except RErr (UInt64 × Bytes × 
     match parseResponseExtra tl2 {} r with
     | .error e => .error e
     | .ok (b, ex, o) => .ok (q, b, ex, o)
+
+/-! ### a proxy hop (`forward.go`) -/
+
+/-- `HandlerContext.ForwardAndFlush`, case `RpcInvokeReqHeader`: the proxy re-sends what `ParseInvokeReq` left in its
+context with `Request{Body: hctx.Request, Extra: hctx.RequestExtra, queryID: hctx.QueryID()}` — `ActorID` and
+`BodyFormatTL2` are not copied. -/
+def forwardRequest (hc : Hctx) : Option (Bytes × Nat) :=
+  preparePacket { body := hc.request, extra := hc.extra, queryId := hc.queryId }
+
+/-- client → proxy (`ParseInvokeReq`, `ForwardAndFlush`) → final server (`ParseInvokeReq`) -/
+def viaProxy (wire : Bytes) : Except RErr (Option (Except RErr Hctx)) :=
+  match parseInvokeReq wire with
+  | .error e => .error e
+  | .ok hc =>
+    match forwardRequest hc with
+    | none => .ok none
+    | some p => .ok (some (parseInvokeReq (wireOf p)))
 
 /-! ### one whole call (client → server → handler → client) -/
 
